@@ -528,7 +528,7 @@ func invalidate(t *rapid.T, d *Desc) string {
 		}
 		return kind + ": " + field + " at " + an
 	case "unknown-key-name":
-		name := rapid.SampledFrom([]string{"KEY_NOPE", "key_a", "A", "KEY_", "BTN_QUUX", "ABS_X", "xZZ", "x12345"}).Draw(t, "name")
+		name := rapid.SampledFrom([]string{"KEY_NOPE", "key_a", "A", "KEY_", "BTN_QUUX", "ABS_X", "xZZ", "x12345", `""`, `" "`, "x", `"KEY_A "`}).Draw(t, "name")
 		if rapid.Bool().Draw(t, "inActions") {
 			d.Actions = append(d.Actions, ActionDef{Code: 1, Action: "panic", RawName: name})
 		} else {
@@ -537,11 +537,11 @@ func invalidate(t *rapid.T, d *Desc) string {
 		}
 		return kind + ": " + name
 	case "unknown-exit-key":
-		name := rapid.SampledFrom([]string{"KEY_NOPE", "esc", "xGG"}).Draw(t, "name")
+		name := rapid.SampledFrom([]string{"KEY_NOPE", "esc", "xGG", "", " ", "x"}).Draw(t, "name")
 		d.ExitRaw = []string{"KEY_LEFTALT", name}
 		return kind + ": " + name
 	case "unknown-axis-name":
-		name := rapid.SampledFrom([]string{"ABS_NOPE", "abs_x", "X", "KEY_A", "xZZ"}).Draw(t, "name")
+		name := rapid.SampledFrom([]string{"ABS_NOPE", "abs_x", "X", "KEY_A", "xZZ", `""`, "x"}).Draw(t, "name")
 		a := ensureAxis(t, d, rapid.SampledFrom([]string{"cc", "key", "action"}).Draw(t, "atype"))
 		a.RawName = name
 		if a.Deadzone != nil {
@@ -551,7 +551,7 @@ func invalidate(t *rapid.T, d *Desc) string {
 	case "unknown-deadzone-axis":
 		a := ensureAxis(t, d, "cc")
 		a.Deadzone = floatp(0.1)
-		a.RawDZName = rapid.SampledFrom([]string{"ABS_NOPE", "abs_y", "xQQ"}).Draw(t, "name")
+		a.RawDZName = rapid.SampledFrom([]string{"ABS_NOPE", "abs_y", "xQQ", `""`}).Draw(t, "name")
 		return kind + ": " + a.RawDZName
 	case "bad-note-name":
 		k := ensureKey(t, d)
@@ -602,16 +602,16 @@ func invalidate(t *rapid.T, d *Desc) string {
 		k.Off = outOff()
 		return kind + ": " + fmt.Sprint(k.Off)
 	case "axis-offset-out-of-range":
-		a := ensureAxis(t, d, rapid.SampledFrom([]string{"cc", "pitch_bend"}).Draw(t, "atype"))
+		a := ensureAxis(t, d, rapid.SampledFrom([]string{"cc", "pitch_bend", "key", "action"}).Draw(t, "atype"))
 		a.Off = intp(outOff())
-		return kind + ": " + fmt.Sprint(*a.Off)
+		return kind + ": " + fmt.Sprint(*a.Off) + " on a " + a.Type + " axis"
 	case "axis-offset-negative-out-of-range":
-		a := ensureAxis(t, d, "cc")
-		if a.CCNeg == nil {
+		a := ensureAxis(t, d, rapid.SampledFrom([]string{"cc", "cc", "key", "action", "pitch_bend"}).Draw(t, "atype"))
+		if a.Type == "cc" && a.CCNeg == nil {
 			a.CCNeg = intp(3)
 		}
 		a.OffNeg = intp(outOff())
-		return kind + ": " + fmt.Sprint(*a.OffNeg)
+		return kind + ": " + fmt.Sprint(*a.OffNeg) + " on a " + a.Type + " axis"
 	case "velocity-out-of-range":
 		d.Velocity = rapid.SampledFrom([]int{128, 129, 255, 256, 1000, -1}).Draw(t, "badVelocity")
 		return kind + ": " + fmt.Sprint(d.Velocity)
